@@ -163,6 +163,30 @@ def generate(rng, tier):
         if op == "sqrt":
             sa = abs(sa)
         yield Case("f.fits", [base, op, hx(sa), dec(ea), dec(p), hx(sb), dec(eb), dec(p)])
+    # ---- floats converted from a power base to its root base (convert_base shortcut `B = NewB^k`):
+    #      significands 2^j * odd (even but not divisible by the source base), odd, multiples of the source
+    #      base, zero; the result must be the normalised representation, ==/cmp Equal to the direct one
+    PAIRS = [(16, 2), (16, 2), (8, 2), (4, 2), (16, 4), (9, 3), (27, 3), (100, 10)]
+    for _ in range(400 if quick else 12000):
+        S, D = rng.choice(PAIRS)
+        odd = rng.choice([1, 3, 5, 0x12345, rng.getrandbits(rng.choice([8, 30, 70, 140])) | 1])
+        r = rng.random()
+        if r < 0.55:
+            sg = odd * D ** rng.randrange(1, 8)          # divisible by the target base, maybe not by the source base
+        elif r < 0.7:
+            sg = odd
+        elif r < 0.8:
+            sg = odd * S ** rng.randrange(1, 3)
+        elif r < 0.85:
+            sg = 0
+        else:
+            sg = rng.getrandbits(rng.choice([5, 20, 64, 130])) + 1
+        if rng.random() < 0.4:
+            sg = -sg
+        yield Case("f.viabase", [S, D, hx(sg), dec(rng.choice([0, 1, -1, 2, -2, 5, -7, rng.randrange(-20, 20)]))])
+    for S, D in set(PAIRS):
+        for sg in (2, 6, 4, 12, D, 2 * D, D * D, S // D if S // D > 1 else 2):
+            yield Case("f.viabase", [S, D, hx(sg), dec(1)]); yield Case("f.viabase", [S, D, hx(-sg), dec(-3)])
     # ---- the same float / rational by several routes
     for _ in range(200 if quick else 6000):
         nd = rng.choice([1, 2, 3, 9, 19, 20, 38, 39, 40, 60])
@@ -230,7 +254,7 @@ RULE = ("integers: values of exactly 0..6,9 (thorough ..100) words in the C09 bi
         "one rational built by 16 / 15 routes (trailing-zero significands, precision changes incl. unlimited, +0, *1, shifts, "
         "parsing, integer conversion, rounding-mode change; non-reduced and signed parts, arithmetic round trips, parsing, "
         "Relaxed->canonicalize) whose representations must be the normalised / reduced one and pairwise ==, cmp Equal (and, for "
-        "RBig, hash-identical). Non-trivial := an integer operand above one word, "
+        "RBig, hash-identical). `f.viabase`: floats of base 16/8/4/9/27/100 with significands 2^j*odd, odd, multiples of the base, zero, converted exactly to the root base (with_base_and_precision, with_base, to_binary) — normalised, ==, cmp Equal to from_parts in the target base; every float the harness receives back is checked for normalisation (`!unnormalized` marker). Non-trivial := an integer operand above one word, "
         "every float/rational case; distinct := distinct (op,args) lines.")
 
 REFINED = [
